@@ -23,18 +23,18 @@ def mutants():
     return out
 def run(job):
     k,(f,ln,old,new,desc),slot=job
-    wt=f'/tmp/wt/sw{slot}'
+    wt=f'/tmp/wt/sw{os.environ.get("SWEEP_TAG","")}{slot}'
     if not os.path.exists(wt): subprocess.check_call(['git','-C','/repo','worktree','add','--detach',wt,'HEAD','-q'])
     subprocess.check_call(['git','-C',wt,'checkout','-q','--','.'])
     p=f'{wt}/{MOD}/{f}'; src=open(p).read().split('\n'); assert src[ln]==old; src[ln]=new; open(p,'w').write('\n'.join(src))
     b=subprocess.run(['go','build','./...'],cwd=f'{wt}/{MOD}',env=env,capture_output=True,text=True)
     if b.returncode!=0: res=('nobuild','')
     else:
-        t=subprocess.run(['go','test','-vet=off','-count=1','-timeout','180s','.'],cwd=f'{wt}/{MOD}',env=env,capture_output=True,text=True)
+        t=subprocess.run(['go','test','-vet=off','-count=1','-timeout','600s']+os.environ.get('SWEEP_TEST','.').split(),cwd=f'{wt}/{MOD}',env=env,capture_output=True,text=True)
         if t.returncode!=0: res=('killed-by-suite','')
         else:
             al=[]
-            tv=f'/tmp/try_verif.sw{slot}'; os.makedirs(tv,exist_ok=True); shutil.copy('/verif/KNOWN_FINDINGS.txt',tv)
+            tv=f'/tmp/try_verif.sw{os.environ.get("SWEEP_TAG","")}{slot}'; os.makedirs(tv,exist_ok=True); shutil.copy('/verif/KNOWN_FINDINGS.txt',tv)
             for pr in os.environ.get('SWEEP_PROPS','C05 C06 C09 C10 C11 C18').split():
                 r=subprocess.run(['/verif/bin/otelcheck','-property',pr,'-tier','quick','-repo',wt,'-verif',tv],capture_output=True,text=True)
                 if r.returncode!=0:
@@ -42,12 +42,13 @@ def run(job):
                     al.append(pr+':'+','.join(rules))
             res=('survived',' '.join(al))
     subprocess.check_call(['git','-C',wt,'checkout','-q','--','.'])
-    return (k,f,ln+1,desc,old.strip()[:90],res[0],res[1])
+    out=(k,f,ln+1,desc,old.strip()[:90],res[0],res[1])
+    print('\t'.join(map(str,out)),flush=True)
+    return out
 ms=mutants(); print(len(ms),'mutants',file=sys.stderr)
 N=int(sys.argv[1]) if len(sys.argv)>1 else 6
 jobs=[(k,m,k%N) for k,m in enumerate(ms)]
 # one slot = one worker: run slots in parallel, jobs of a slot sequentially
 def runslot(s): return [run(j) for j in jobs if j[2]==s]
 with concurrent.futures.ThreadPoolExecutor(N) as ex:
-    for rs in ex.map(runslot,range(N)):
-        for r in rs: print('\t'.join(map(str,r)),flush=True)
+    list(ex.map(runslot,range(N)))
